@@ -3,6 +3,6 @@ CONSTANTS
   T <- TraceT
   StrictA = TRUE
   CheckCat = TRUE
-INVARIANTS RefinesSeq
+INVARIANTS RefinesSeq NoTraceOfRejected
 POSTCONDITION TraceAccepted
 CHECK_DEADLOCK FALSE
